@@ -610,9 +610,17 @@ func (r *RegisteredDecoys) track(d *DecoyRegistration) error {
 		regID:            d.IDString(),
 		status:           regStatusUnused,
 	}
-	r.decoysTimeouts[d.IDString()+phantomAddr] = newTimeout
+	r.decoysTimeouts[timeoutKey(phantomAddr, identifier)] = newTimeout
 
 	return nil
+}
+
+// timeoutKey gives the index of a registration's record in decoysTimeouts. Like the decoys map it
+// is derived from the phantom address and the transport identifier: one shared secret can be
+// registered with more than one transport for the same phantom, and each of those registrations
+// needs a timeout record of its own to be expired (and marked used) independently.
+func timeoutKey(phantomAddr, identifier string) string {
+	return phantomAddr + "/" + identifier
 }
 
 func (r *RegisteredDecoys) register(darkDecoyAddr string, d *DecoyRegistration) error {
@@ -651,8 +659,13 @@ func (r *RegisteredDecoys) markActive(d *DecoyRegistration) {
 	r.m.Lock()
 	defer r.m.Unlock()
 
+	t, ok := r.transports[d.Transport]
+	if !ok {
+		return
+	}
+
 	phantomAddr := d.PhantomIp.String()
-	if regTimeout, ok := r.decoysTimeouts[d.IDString()+phantomAddr]; ok {
+	if regTimeout, ok := r.decoysTimeouts[timeoutKey(phantomAddr, t.GetIdentifier(d))]; ok {
 		regTimeout.status = regStatusUsed
 
 		// Since we update the applicable timeout here, we should update that
